@@ -10,7 +10,9 @@ import AlgoVerif.Proofs.C04BinomialShape
 `diverge`), `Peek`/`Delete` return a held pair whose key is `cmp`-extremal among all held entries,
 `Delete` removes exactly that pair, `Size` = number of held entries, `IsEmpty`/`ContainsKey`/`ContainsValue`
 answer membership over the held multiset, `Merge` makes the receiver hold the multiset union and leaves the
-operand empty (both heaps stay in use afterwards; merging a heap into itself changes nothing).
+operand empty (both heaps stay in use afterwards; merging a heap into itself changes nothing; `mergeOther d`, a
+`Merge` whose operand is not a heap of the same implementation type, is ignored by the code as documented —
+"the new heap must have the same underlying type" — and must leave every heap of the family as it is).
 `LawfulCmp cmp`: `cmp` is a total preorder read through its sign (min or max orientation alike).
 -/
 open AlgoVerif AlgoVerif.C04
@@ -61,6 +63,15 @@ example : (binomialImpl cmpAsc (fun a b : Int => a == b)).run
     Binomial.sibSameOrder, Tree.link, cmpAsc, Tree.key, Binomial.mergeWith, Binomial.delete, Binomial.findExt,
     Binomial.findExtLoop, Tree.children, Tree.val, Binomial.containsKey, Tree.anyF, Tree.any]
 
+/-- non-vacuity for `mergeOther` (an operand of another type): the receiver keeps its two entries. -/
+example : (binomialImpl cmpAsc (fun a b : Int => a == b)).run
+      [.on 0 (.insert 3 1), .on 0 (.insert 1 2), .mergeOther 0, .on 0 .size, .on 0 .delete, .mergeOther 1, .on 0 .delete] =
+    [.ok .unit, .ok .unit, .ok .unit, .ok (.int 2), .ok (.kv (some (1, 2))), .ok .unit, .ok (.kv (some (3, 1)))] := by
+  simp [Impl.run, Impl.runFrom, Impl.mstep, binomialImpl, Binomial.step, update, Binomial.insert, Binomial.union,
+    Binomial.merge, Binomial.consolidate, Binomial.consLoop, Binomial.new, Tree.leaf, Tree.deg,
+    Binomial.sibSameOrder, Tree.link, cmpAsc, Tree.key, Binomial.delete, Binomial.findExt,
+    Binomial.findExtLoop, Tree.children, Tree.val]
+
 /-- Fibonacci heap (`heap/fibonacci.go`): for every lawful comparator and every finite history over a family of
 heaps, the trace of the Model is admitted by the multiset Spec.  In particular `consolidate` never indexes
 `roots` out of range (every tree is an unordered binomial tree, so `2 ^ degree ≤ n` and
@@ -81,6 +92,12 @@ example : (fibImpl cmpDesc (fun a b : Int => a == b)).run
     [.ok .unit, .ok .unit, .ok .unit, .ok .unit, .ok .unit, .ok .unit,
      .ok (.kv (some (5, 2))), .ok (.int 4), .ok (.int 0), .ok .unit, .ok .unit, .ok (.kv (some (9, 6))),
      .ok (.kv (some (5, 3))), .ok (.bool true)] := by
+  decide
+
+/-- non-vacuity for `mergeOther` (an operand of another type): the receiver keeps its two entries. -/
+example : (fibImpl cmpDesc (fun a b : Int => a == b)).run
+      [.on 0 (.insert 3 1), .on 0 (.insert 5 2), .mergeOther 0, .on 0 .size, .on 0 .delete, .mergeOther 1, .on 0 .delete] =
+    [.ok .unit, .ok .unit, .ok .unit, .ok (.int 2), .ok (.kv (some (5, 2))), .ok .unit, .ok (.kv (some (3, 1)))] := by
   decide
 
 /-- The arithmetic behind `roots[x.degree]` being in range: a tree of degree `d` that fits into `n` nodes
